@@ -27,7 +27,8 @@ RULE = ("per scenario {first call; second function with identical bytes already 
         "byte-identical results; non-trivial = distinct (scenario, operation, variant, prefix) fault points at "
         "which the fault was observed to fire"
         '; scenarios include an array result larger than the memory cache that the caller keeps'
-        '; rounds 7-9: a chain of partitions, recovery ending with a forget')
+        '; rounds 7-9: a chain of partitions, recovery ending with a forget'
+        '; round 12: two earlier calls stored under the override key the faulted call writes to, judged in the fresh processes')
 ASSUMPTIONS = ["a crash is os._exit at the failpoint (no Python-level cleanup runs); durability of completed writes "
                "is the file system's business", "faults are injected into mutating operations only",
                "bounded recovery: the first call after faults stop may recompute, the third must be served"]
